@@ -249,6 +249,8 @@ lazy_static! {
             map.insert(prop_type.to_string(), prop_type);
         }
         map.insert("nsec".to_string(), PacketPropType::USec);
+        // the name the documentation lists for the same field
+        map.insert("msec".to_string(), PacketPropType::USec);
         map
     };
 }
